@@ -54,7 +54,8 @@ def build_tree(tree, full, ctl_names=True):
     tree.write("long/" + "n" * 255, b"255\n")
     # link blocks with relative paths that climb and come back (they are listed normalised, or could not be followed)
     tree.write("docs/sub/.Links", b"Name=Sibling document\nType=0\nPath=../a.txt\n\n"
-                                  b"Name=Doubled slash\nType=1\nPath=..//sub\n\nName=Up and down\nType=0\nPath=x/../deep.txt\n")
+                                  b"Name=Doubled slash\nType=1\nPath=..//sub\n\nName=Up and down\nType=0\nPath=x/../deep.txt\n\n"
+                                  b"Name=This server, said with a plus\nType=0\nPath=deep.txt\nHost=+\nPort=+\n\nName=Plus host only\nType=1\nPath=../sub\nHost=+\n")
     # thirteen nested names of 120 non-UTF-8 bytes: 1.6 KiB on disk, a percent-encoded link of more than 4 KiB
     tree.write(b"long13/" + b"/".join(bytes([0xe0 + k]) * 120 for k in range(13)) + b"/bottom.txt", b"bottom\n")
     # a mailbox and a Maildir whose names are as long as a name can be (255 bytes): their messages are virtual selectors below them
